@@ -11,14 +11,15 @@ from . import paths
 paths.activate()
 from sourcer import translator  # noqa: E402
 from sourcer import expressions as ex  # noqa: E402
+from . import locate  # noqa: E402
 
 
 def template_source(uses_context, start='_try_start'):
-    main = Template(translator._main_template).substitute(
+    main = Template(locate.template('main')).substitute(
         CALL=ex.CALL, ctx='_ctx, ' if uses_context else '', start=start)
-    parts = [translator._program_setup]
+    parts = [locate.template('setup')]
     if uses_context:
-        parts.append(translator._context_section)
+        parts.append(locate.template('context'))
     parts.append(main)
     return '\n'.join(parts)
 
@@ -63,7 +64,7 @@ def shipped_parser_defs():
 def generated_module_source(description, include_docstring=True):
     """text of the module the real translator generates for `description` (nothing is executed)"""
     from sourcer import grammar as G
-    parsed = G._parse_grammar(description)
+    parsed = locate.parse_grammar()(description)
     docstring = '# Grammar definition:\n' + description
-    builder = translator.generate_source_code(docstring, parsed)
+    builder = locate.generate_source_code()(docstring, parsed)
     return builder.source_code()
